@@ -138,6 +138,7 @@ def corpus():
         mk(200, [['stream', [hx('tick')]], ['text', hx('hello')]]),
         mk(500, [['stream', [hx('tick')]], ['drop']]),
         mk(200, [['stream', [hx('tick')]], ['json', hx('{"error":1}')], ['stream', [hx('again')]]]),
+        mk(200, [['stream', [hx('first')]], ['stream', [hx('second')]]]),          # a stream set over a stream is still announced as chunked
         # a registered field name through the by-name API: set and removed by name
         mk(200, [['xset', hx('Cache-Control'), hx('no-store')], ['xremove', hx('Cache-Control')]]),
         mk(200, [['xset', hx('server'), hx('a')], ['xappend', hx('server'), hx('b')], ['xset', hx('X-A'), '31'], ['xremove', hx('server')], ['xset', hx('VIA'), hx('1.1 p')]]),
@@ -155,6 +156,7 @@ def _stream_case(rng):
         ops.append(rng.choice([['text', hx('replaced')], ['html', hx('<p>no</p>')], ['json', hx('{"error":1}')], ['payload', hx('image/png'), '0001'], ['drop'], ['drop']]))
         if rng.random() < 0.3: ops.append(['stream', [hx('again')]])
     elif r < 0.5: ops.insert(0, rng.choice([['text', hx('first')], ['set', 'Server', hx('s')], ['drop']]))
+    elif r < 0.62: ops.append(['stream', [hx(m) for m in rng.choice([['second'], [], ['a', 'b']])]])          # a stream set over a stream
     return {'status': rng.choice([200, 200, 201, 204, 204, 304, 404]), 'clock': 784111777, 'date': DATE, 'ops': ops}
 
 
